@@ -72,10 +72,11 @@ def _init_text(i):
 
 
 class Kernel:
-    def __init__(self, ctx, qual, cls_name=None):
+    def __init__(self, ctx, qual, cls_name=None, inline_foreign=False):
         self.ctx = ctx
         self.func = ctx.func(qual)
-        self.sx = SymX(ctx, self.func, cls_name).run()
+        # node kernels: small methods of the successor objects are judged by content (inline_foreign)
+        self.sx = SymX(ctx, self.func, cls_name, inline_foreign=inline_foreign).run()
         self.ret = self.sx.ret
         ps = [p for p in self.func.params if p != "self"]
         self.slist = ps[0] if ps else None
